@@ -327,6 +327,14 @@ func bytesSources(r *rng, nRandom int) []srcVal {
 			out = append(out, srcVal{b, fmt.Sprintf("[]byte(len=%d)", n)})
 		}
 	}
+	// lengths that equal a fixed width modulo 256 (a length held in a byte wraps there)
+	for _, n := range []int{256, 257, 258, 260, 264, 512 + 8} {
+		b := make([]byte, n)
+		for j := range b {
+			b[j] = byte(j)
+		}
+		out = append(out, srcVal{b, "[]byte(len=256k+size)"})
+	}
 	s, _ := boundaryInts()
 	for _, x := range s {
 		b := make([]byte, 8)
